@@ -151,7 +151,7 @@ func ReturnsNonNilError(in ssa.Instruction) bool {
 	if !ok || len(r.Results) == 0 {
 		return false
 	}
-	last := r.Results[len(r.Results)-1]
+	last := ReturnValues(r)[len(r.Results)-1]
 	if !isErrorType(last.Type()) {
 		return false
 	}
@@ -170,7 +170,7 @@ func ReturnsNilError(in ssa.Instruction) bool {
 	if len(r.Results) == 0 {
 		return true
 	}
-	last := r.Results[len(r.Results)-1]
+	last := ReturnValues(r)[len(r.Results)-1]
 	if !isErrorType(last.Type()) {
 		return true
 	}
